@@ -144,7 +144,7 @@ func runC05(c *fw.Case) {
 	nClients := 3 + r.Intn(4)
 	nKeys := 2 + r.Intn(4)
 	perClient := 150 + r.Intn(250)
-	opts := dbOptSet{Memstore: uint64(10 + r.Intn(50)), Threshold: r.Intn(3), MaxSize: gen.Pick(r, uint64(200), 2000, 1<<40), Ratio: gen.Pick(r, float32(0.2), 1),
+	opts := dbOptSet{Memstore: uint64(10 + r.Intn(50)), Threshold: r.Intn(3), MaxSize: gen.Pick(r, uint64(200), 2000, 2000, 1<<40), Ratio: gen.Pick(r, float32(0.2), 1),
 		ReadBuf: 4096, WriteBuf: gen.Pick(r, uint64(64), 4096), Live: live, IntervalMs: 1, IntervalUs: gen.Pick(r, 50, 200, 1000)}
 	db, err := simpledb.NewSimpleDB(c.Dir, opts.Options()...)
 	if err == nil {
@@ -153,6 +153,20 @@ func runC05(c *fw.Case) {
 	if err != nil {
 		c.Violate("lin/open-error", "%v", err)
 		return
+	}
+	// half of the histories start on top of an ANCHOR table that is larger than the compaction size limit and therefore
+	// stays out of every run: the runs then never start at the oldest table (they keep their tombstones)
+	if r.Intn(2) == 0 {
+		if err := db.Put("anchor", strings.Repeat("a", 4096)); err == nil {
+			err = db.VerifForceRotate()
+		}
+		if err != nil || !waitFlushIdle(20*time.Second) {
+			c.Inconclusive(fmt.Sprintf("anchor table could not be set up: %v", err))
+			_ = db.Close()
+			return
+		}
+		c.Obs("histories_on_top_of_an_anchor_table_outside_every_run", 1)
+		c.HashAdd("anchor")
 	}
 	// delays between critical sections
 	var delays int64
@@ -236,6 +250,10 @@ func runC05(c *fw.Case) {
 					in = linIn{Key: k}
 					var v string
 					v, e = db.Get(k)
+					if e == nil && v == "" {
+						// nobody ever writes an empty value: a successful Get that returns one is not the absent state either
+						v = "<empty value, never written>"
+					}
 					if e == nil {
 						out = linOut{v, true}
 					} else if errors.Is(e, simpledb.ErrNotFound) {
@@ -311,6 +329,24 @@ func runC05(c *fw.Case) {
 		}
 	}()
 	wg.Wait()
+	// in the driven histories the state is pushed all the way down before the final reads: the memstores are rotated out
+	// and two more compaction cycles run, so that the last deletes are only represented by what compactions wrote
+	settle := !live && !faulty && opErr == nil && r.Intn(2) == 0
+	flIn := simpledb.VerifPointCount("flusher.done") - flush0
+	cpIn := simpledb.VerifPointCount("compaction.reflected") - comp0
+	if settle {
+		// (the chaos goroutine is stopped first: the library runs ONE compactor, two concurrent cycles are not a legal schedule)
+		atomic.StoreInt32(&clientsDone, 1)
+		cwg.Wait()
+	}
+	if settle && chaosErr == nil {
+		if db.VerifForceRotate() == nil && waitFlushIdle(20*time.Second) && db.VerifForceRotate() == nil && waitFlushIdle(20*time.Second) {
+			for i := 0; i < 2; i++ {
+				_, _ = db.VerifCompactOnce()
+			}
+			c.Obs("histories_settled_into_compacted_tables_before_the_final_reads", 1)
+		}
+	}
 	// after all clients have returned, one more client reads every key: the final state must fit the history too
 	for k := 0; k < nKeys && opErr == nil; k++ {
 		key := fmt.Sprintf("key%d", k)
@@ -318,6 +354,9 @@ func runC05(c *fw.Case) {
 		v, e := db.Get(key)
 		ret := now()
 		out := linOut{}
+		if e == nil && v == "" {
+			v = "<empty value, never written>"
+		}
 		if e == nil {
 			out = linOut{v, true}
 		} else if !errors.Is(e, simpledb.ErrNotFound) {
@@ -326,8 +365,6 @@ func runC05(c *fw.Case) {
 		}
 		ops = append(ops, porcupine.Operation{ClientId: nClients, Input: linIn{Key: key}, Call: call, Output: out, Return: ret})
 	}
-	flIn := simpledb.VerifPointCount("flusher.done") - flush0
-	cpIn := simpledb.VerifPointCount("compaction.reflected") - comp0
 	atomic.StoreInt32(&clientsDone, 1)
 	cwg.Wait()
 	cerr := db.Close()
